@@ -109,6 +109,12 @@ DUO = {
 }
 
 
+GENERIC_MONO = ["reverse", "reverse2", "uniquify", "uninterleave", "prefixes", "sublists", "powerset", "group", "counts", "length",
+                "headremove", "tailremove"]
+GENERIC_DUO_LX = ["count", "remove"]
+GENERIC_DUO_LL = ["zip", "interleave", "merge"]
+
+
 def leaves(t):
     return [x for i in t for x in (leaves(i) if isinstance(i, list) else [i])]
 
@@ -162,8 +168,21 @@ def run(ctx, widen=False):
             def nest(d):
                 return [nest(d - 1) if d > 0 and rng.random() < 0.4 else rng.randint(-3, 5) for _ in range(rng.randint(0, 4))]
             cases += [{"f": name, "a": nest(3)} for _ in range(500 if thorough else 100)]
+    # laws that do not look inside the items are also run on lists whose items are themselves lists
+    POOL = [1, [1, 2], [3], 3, [], [[1], 2]]
+    mixed = [list(t) for L in range(0, 4) for t in itertools.product(POOL, repeat=L)]
+    if not thorough:
+        mixed = mixed[::3]
+    for name in GENERIC_MONO:
+        src = [m for m in mixed if len(m) <= 3] if name in ("powerset", "sublists") else mixed
+        cases += [{"f": name, "a": m} for m in src]
+    ctx.bump("monadic law cases with list-valued items", sum(1 for c in cases if any(isinstance(x, list) for x in c["a"])))
     ctx.check_many("mono", cases)
     duo = []
+    for name in GENERIC_DUO_LX:
+        duo += [{"f": name, "a": m, "b": x} for m in mixed[::2] for x in ([1, 2], [3], 3, [])]
+    for name in GENERIC_DUO_LL:
+        duo += [{"f": name, "a": a, "b": b} for a in mixed[::7] for b in mixed[::11]]
     short = [l for l in lists if len(l) <= (4 if thorough else 3)][:: (1 if thorough else 2)]
     for name, (fn, law, kind) in DUO.items():
         if kind in ("ll", "llms"):
